@@ -63,6 +63,8 @@ def strategy(tier):
       'open_delay_ms': st.sampled_from([0, 5]),
       'close_delay_ms': st.sampled_from([0, 0, 4]),
       'open_fails': st.sampled_from([False, False, True]),
+      # which calls of the underlying Close() (1st, 2nd, ...) raise: the transport is gone all the same
+      'close_raises': st.sampled_from([[], [], [], [1], [2], [1, 2]]),
       'ops': sized_list(weighted((4, st.just(['open'])), (5, st.just(['close'])),
                                  (1, st.tuples(st.just('advance'), st.sampled_from([1, 10])).map(list))), 0, 40),
   })
@@ -341,6 +343,8 @@ class MockSink(ClientMessageSink):
 
   def Close(self):
     self.closes += 1
+    if self.closes in getattr(self, 'close_raises', ()):
+      raise RuntimeError('underlying close failed')
     if self.close_delay:
       self.closing += 1
       try:
@@ -359,6 +363,16 @@ def _exec_refcount(plan):
   cd = plan.get('close_delay_ms', 0) / 1000.0
   under = MockSink(plan['open_delay_ms'] / 1000.0, cd)
   under.open_fails = bool(plan.get('open_fails'))      # every holder is then handed the same failed open result
+  under.close_raises = tuple(plan.get('close_raises') or ())
+  raised = [0]
+
+  def do_close():
+    try:
+      rc.Close()
+    except RuntimeError as e:
+      if 'underlying close failed' not in str(e):
+        raise
+      raised[0] += 1      # the last holder sees the transport's error; the sink is closed all the same
   rc = RefCountedSink(under)
   count = 0
   want_opens = want_closes = 0
@@ -389,7 +403,7 @@ def _exec_refcount(plan):
         count -= 1
         if count == 0:
           want_closes += 1
-      gevent.spawn(rc.Close)
+      gevent.spawn(do_close)
     else:
       advance(op[1] / 1000.0)
     settle()
@@ -417,7 +431,8 @@ def _exec_refcount(plan):
     if first.setdefault(g_, ar) is not ar:
       raise Violation(ID, 'refcount-open-result', 'two holders of the same open connection got different open results %s' % where)
   nt = (['surplus close'] if surplus else []) + (['open during a slow close'] if slow else [])
-  return Outcome(nontrivial=nt or None, classes=['refcount'] + (['surplus_close'] if surplus else []) + (['open_during_slow_close'] if slow else []))
+  return Outcome(nontrivial=nt or None, classes=['refcount'] + (['surplus_close'] if surplus else []) + (['open_during_slow_close'] if slow else []) +
+                 (['underlying_close_raised'] if raised[0] else []))
 
 
 class _KeyProvider(SinkProviderBase):
